@@ -451,7 +451,7 @@ func genFaults(c *ctx) {
 	}
 	var cases []*fcase
 	kinds := []string{"flip", "delete", "dup", "insert", "truncate", "cut", "dupr", "dropline", "dupline", "forge"}
-	per := c.pick(26, 300)
+	per := c.pick(26, 150)
 	for _, b := range bases {
 		if len(b.wire[0]) == 0 || len(b.wire[1]) == 0 || b.names == nil {
 			c.violate("baseline-failed", "fault-free baseline transfer did not succeed", describeCfg(b.cfg)+" kind="+b.kind)
